@@ -1,6 +1,8 @@
 /- Line-protocol driver: `<stream> <op> args…` per line on stdin, one canonical result line each. -/
 import Schc.Drv.BufStream
 import Schc.Drv.SchcStream
+import Schc.Drv.JsonStream
+import Schc.Drv.HistStream
 
 open Schc.Drv
 
@@ -11,6 +13,8 @@ def handle (line : String) : String :=
   | "schc" :: rest => (schcOp rest).getD "bad-op"
   | "parse" :: rest => (parseOp rest).getD "bad-op"
   | "compute" :: rest => (computeOp rest).getD "bad-op"
+  | "json" :: rest => (jsonOp rest).getD "bad-op"
+  | "hist" :: rest => (histOp rest).getD "bad-op"
   | _ => "bad-op"
 
 partial def loop (h : IO.FS.Stream) (out : IO.FS.Stream) : IO Unit := do
